@@ -12,9 +12,15 @@ def orderOf (j : Json) : Except String (Option Order) :=
   | Json.str ">" => pure (some .big)
   | _ => throw s!"bad byte order {j.compress}"
 
-def fmtOf (s : String) : Except String Fmt :=
+/-- (format of the struct strategy, format of the array strategy): they differ for l / L under a
+    standard-size prefix (4 bytes for struct, the machine's `long` in an array) -/
+def fmtOf (s : String) (std : Bool) (long : Nat) : Except String (Fmt × Fmt) :=
   match s with
-  | "b" => pure .b | "h" => pure .h | "i" => pure .i | "f" => pure .f | "d" => pure .d
+  | "b" => pure (.b, .b) | "h" => pure (.h, .h) | "i" => pure (.i, .i) | "f" => pure (.f, .f) | "d" => pure (.d, .d)
+  | "B" => pure (.u 1, .u 1) | "H" => pure (.u 2, .u 2) | "I" => pure (.u 4, .u 4)
+  | "q" => pure (.s 8, .s 8) | "Q" => pure (.u 8, .u 8)
+  | "l" => pure (.s (if std then 4 else long), .s long)
+  | "L" => pure (.u (if std then 4 else long), .u long)
   | _ => throw s!"bad format {s}"
 
 /-- Python number: JSON integer = int, `{"f": bits}` = the double with that bit pattern -/
@@ -22,8 +28,12 @@ def pval (j : Json) : Except String PVal :=
   match j with
   | Json.int n => pure (.int n)
   | Json.obj _ => do
-    let b ← getNat (← field j "f")
-    pure (.flt (Float.ofBits (UInt64.ofNat b)))
+    match optField j "b" with
+    | some bj => pure (.bool (← getBool bj))
+    | none =>
+      let b ← getNat (← field j "f")
+      let x := Float.ofBits (UInt64.ofNat b)
+      pure (if (optField j "q").isSome then .frac x else .flt x)
   | _ => throw s!"bad value {j.compress}"
 
 def bytesJson (b : Bytes) : Json := arr (fun (x : UInt8) => Json.int x.toNat) b
@@ -119,7 +129,9 @@ def handleRes (j : Json) : Except String Json := do
 def handle1 (entry : String) (j : Json) : Except String Json := do
   match entry with
   | "chunks" =>
-    let fmt ← fmtOf (← getStr (← field j "fmt"))
+    let std ← getBool (fieldD j "std" (Json.bool false))
+    let long ← getNat (fieldD j "long" (Json.int 8))
+    let (fmt, afmt) ← fmtOf (← getStr (← field j "fmt")) std long
     let native ← orderOf (← field j "native")
     let native ← match native with | some o => pure o | none => throw "native order required"
     let order := resolveOrder native (← orderOf (fieldD j "order" Json.null))
@@ -128,13 +140,13 @@ def handle1 (entry : String) (j : Json) : Except String Json := do
     let pad ← pval (← field j "pad")
     let xs ← getList pval (← field j "xs")
     let s := chunksStruct order (leElem true fmt) size pad xs
-    let a := chunksArray native order (leElem false fmt) (.int 0) size pad xs
+    let a := chunksArray native order (leElem false afmt) (.int 0) size pad xs
     let sp := chunksSpec (encOrder order (leElem true fmt)) size pad xs
-    let spa := chunksSpec (encOrder order (leElem false fmt)) size pad xs
+    let spa := chunksSpec (encOrder order (leElem false afmt)) size pad xs
     pure <| Json.mkObj [
       ("struct", genJson structErr s), ("array", genJson arrayErr a),
       ("spec", genJson absErr sp), ("spec_array", genJson absErr spa),
-      ("width", natToJson fmt.width), ("padlen", natToJson (padLen size xs.length))]
+      ("width", natToJson fmt.width), ("awidth", natToJson afmt.width), ("padlen", natToJson (padLen size xs.length))]
   | "wav" =>
     let bits ← getNat (← field j "bits")
     let channels ← getNat (← field j "channels")
